@@ -9,6 +9,83 @@ import (
 // runs it and returns it (the caller calls Finish and writes the trace).
 var Families = map[string]func(t *testing.T, seed int64, steps int) *Cluster{
 	"happy": famHappy,
+	"chaos": famChaos,
+	"elect": famElect,
+	"snap":  famSnap,
+}
+
+// famElect: election-heavy schedules: flapping partitions, delayed/duplicated votes, crashes between
+// the stable-store writes, slow disks, leadership transfers; 3 or 5 servers.
+func famElect(t *testing.T, seed int64, steps int) *Cluster {
+	opt := DefaultOptions(seed)
+	opt.Family = "elect"
+	if seed%3 == 0 {
+		opt.Servers = []string{"n1", "n2", "n3", "n4", "n5"}
+		opt.Initial = map[string]string{"n1": "V", "n2": "V", "n3": "V", "n4": "V", "n5": "V"}
+	}
+	if seed%4 == 1 {
+		opt.PreVoteOff = true
+	}
+	c := NewCluster(t, opt)
+	c.Bootstrap()
+	c.StartAll()
+	w := Weights{Deliver: 30, Reply: 30, Drop: 6, LoseResp: 6, Dup: 6, Tick: 16, TickMax: 30 * time.Millisecond,
+		Apply: 3, Partition: 5, Heal: 4, Crash: 1, CrashAtWrite: 3, FailWrite: 1, SlowWrite: 3, ReleaseWrite: 6,
+		Restart: 4, MaxCrashes: 8, Transfer: 3}
+	c.RandomRun(w, steps)
+	c.converge(500 * time.Millisecond)
+	return c
+}
+
+// famSnap: snapshots, compaction, InstallSnapshot, restarts.
+func famSnap(t *testing.T, seed int64, steps int) *Cluster {
+	opt := DefaultOptions(seed)
+	opt.Family = "snap"
+	opt.SnapThresh = uint64(2 + seed%4)
+	opt.SnapIntv = 20 * time.Millisecond
+	opt.Trailing = uint64(seed % 3)
+	opt.MaxAppend = 1 + int(seed%3)
+	opt.Mono = seed%5 == 0
+	c := NewCluster(t, opt)
+	c.Bootstrap()
+	c.StartAll()
+	w := Weights{Deliver: 40, Reply: 40, Drop: 3, LoseResp: 3, Dup: 2, Tick: 14, TickMax: 20 * time.Millisecond,
+		Apply: 10, Barrier: 1, UserSnap: 2, Partition: 3, Heal: 2, Crash: 1, CrashAtWrite: 1, Restart: 3, MaxCrashes: 5,
+		FsmGate: 1, FsmRelease: 3}
+	c.RandomRun(w, steps)
+	c.converge(600 * time.Millisecond)
+	return c
+}
+
+// converge stops faults, restarts everybody and runs a healthy network for a while.
+func (c *Cluster) converge(d time.Duration) {
+	c.StopFaults()
+	for _, n := range c.Nodes {
+		if !n.Up && n.everStarted {
+			c.Start(n.ID)
+		}
+	}
+	c.Settle("restart")
+	c.RunQuiet(d, 5*time.Millisecond)
+	if l := c.Leader(); l != "" {
+		c.Apply(l, 0)
+		c.Settle("client")
+		c.RunQuiet(100*time.Millisecond, 5*time.Millisecond)
+	}
+}
+
+// famChaos: elections + replication under loss, delay, duplication, partitions, crashes.
+func famChaos(t *testing.T, seed int64, steps int) *Cluster {
+	opt := DefaultOptions(seed)
+	opt.Family = "chaos"
+	c := NewCluster(t, opt)
+	c.Bootstrap()
+	c.StartAll()
+	w := Weights{Deliver: 40, Reply: 40, Drop: 4, LoseResp: 4, Dup: 3, Tick: 14, TickMax: 20 * time.Millisecond,
+		Apply: 6, Barrier: 1, Partition: 2, Heal: 2, Crash: 1, CrashAtWrite: 1, Restart: 3, MaxCrashes: 4, Transfer: 1}
+	c.RandomRun(w, steps)
+	c.converge(500 * time.Millisecond)
+	return c
 }
 
 // famHappy: bootstrap, elect, a few applies on a healthy network.
